@@ -178,4 +178,65 @@ open Rtosc.Save.Example in
 example : exApp.loadFile (exApp.saveFile (0, 3, 1) (1, 2, 3) exState) exApp.init = .ok exState 2 :=
   load_save_restores exApp ex_wf ex_covers ex_ranked _ _ rfl rfl exState ⟨_, rfl⟩
 
+/-! ### known finding C12-K9: +infinity does not survive the text stages -/
+
+/-- a savefile line as the text stages of the unchanged library hand it back: a float holding +infinity is
+    printed `inf (inf)`, which the scanner reads as the keyword of the 'I' argument followed by garbage — the
+    line does not scan (`-inf (-inf)` does) -/
+def scansBack (l : Line) : Bool :=
+  (match l.args with | .plain vs => vs | .arr vs => vs).all fun v => decide (v ≠ Val.flt 0x7f800000)
+
+/-- trigger of C12-K9: a line of the savefile of state `s` carries +infinity -/
+def hasPosInf (app : App) (s : State) : Bool := (app.save s).any fun l => !scansBack l
+
+/-- the file `load_from_file` gets to see when the text of `save_to_file` is scanned by the unchanged library -/
+def scannedFile (app : App) (rtoscVer appVer : Nat × Nat × Nat) (s : State) : File :=
+  { magic := true, rtoscVer := rtoscVer, appName := app.name, appVer := appVer,
+    body := (app.save s).map fun l => if scansBack l then some l else none }
+
+/-- one unbounded float parameter `/f` with default 1.0 -/
+def k9App : App :=
+  { name := "k9".toList,
+    params := [{ addr := "/f".toList, kind := .flt none none, dflt := .const (.flt 0x3f800000), guards := [], anc := [],
+                 canon := .flt 0x3f800000 }],
+    walk := [.scalar 0], apropos := fun _ => none }
+
+/-- the state reached by sending `/f +inf` -/
+def k9State : State := k9App.run [("/f".toList, [.flt 0x7f800000])] k9App.init
+
+example : k9App.Reachable k9State := ⟨_, rfl⟩
+
+theorem k9_trigger : hasPosInf k9App k9State = true := by decide +kernel
+
+/-- **C12-K9 counterexample** (mirrors the unchanged library): the savefile of a reachable state that holds
+    +infinity is rejected when it is loaded back. -/
+theorem posinf_not_restored_counterexample :
+    ¬ (∃ n, k9App.loadFile (scannedFile k9App (0, 3, 1) (1, 2, 3) k9State) k9App.init = .ok k9State n) := by
+  intro ⟨n, h⟩
+  have : k9App.loadFile (scannedFile k9App (0, 3, 1) (1, 2, 3) k9State) k9App.init = .fail := by
+    apply rejects_unparsable
+    decide +kernel
+  rw [this] at h
+  cases h
+
+/-- **load_save_restores through the text stages of the unchanged library, partial**: outside the trigger of
+    C12-K9 the scanned file is the saved file, and loading it restores the state. -/
+theorem load_save_restores_scanned_partial (app : App) (hwf : app.WF) (hcov : app.MetaCovers) (hrank : MetaRanked app.apropos)
+    (rtoscVer appVer : Nat × Nat × Nat) (hrv : verOk rtoscVer = true) (hav : verOk appVer = true)
+    (s : State) (hs : app.Reachable s) (hk : hasPosInf app s = false) :
+    app.loadFile (scannedFile app rtoscVer appVer s) app.init = .ok s (app.save s).length := by
+  have hb : scannedFile app rtoscVer appVer s = app.saveFile rtoscVer appVer s := by
+    unfold scannedFile App.saveFile
+    congr 1
+    apply List.map_congr_left
+    intro l hl
+    have : scansBack l = true := by
+      unfold hasPosInf at hk
+      rw [List.any_eq_false] at hk
+      have := hk l hl
+      simpa using this
+    simp [this]
+  rw [hb]
+  exact load_save_restores app hwf hcov hrank rtoscVer appVer hrv hav s hs
+
 end Rtosc.C12
